@@ -20,18 +20,18 @@ theorem foldl_add_eq (b : Bytes) (a : UInt8) : b.foldl (· + ·) a = a + sum8 b 
     rw [ih (a + x), ih (0 + x)]
     simp [UInt8.add_assoc]
 
-@[simp] theorem sum8_nil : sum8 [] = 0 := rfl
+@[simp] theorem v_sum8_nil : sum8 [] = 0 := rfl
 
-theorem sum8_cons (x : UInt8) (b : Bytes) : sum8 (x :: b) = x + sum8 b := by
+theorem v_sum8_cons (x : UInt8) (b : Bytes) : sum8 (x :: b) = x + sum8 b := by
   show (x :: b).foldl (· + ·) 0 = _
   simp only [List.foldl_cons]
   rw [foldl_add_eq]
   simp
 
-theorem sum8_append (a b : Bytes) : sum8 (a ++ b) = sum8 a + sum8 b := by
+theorem v_sum8_append (a b : Bytes) : sum8 (a ++ b) = sum8 a + sum8 b := by
   induction a with
   | nil => simp
-  | cons x xs ih => simp [sum8_cons, ih, UInt8.add_assoc]
+  | cons x xs ih => simp [v_sum8_cons, ih, UInt8.add_assoc]
 
 theorem u8_add_left_cancel {a x y : UInt8} (h : a + x = a + y) : x = y := by
   have := congrArg UInt8.toNat h
@@ -50,7 +50,7 @@ theorem u8_add_right_cancel {a x y : UInt8} (h : x + a = y + a) : x = y := by
 theorem sum8_alter (pre post : Bytes) (x y : UInt8) (h : x ≠ y) :
     sum8 (pre ++ x :: post) ≠ sum8 (pre ++ y :: post) := by
   intro e
-  simp only [sum8_append, sum8_cons] at e
+  simp only [v_sum8_append, v_sum8_cons] at e
   exact h (u8_add_right_cancel (u8_add_left_cancel e))
 
 /-- the two's complement of the sum makes the total zero -/
